@@ -5,8 +5,8 @@ use crate::Sm4;
 use cipher::{BlockCipherDecrypt, BlockCipherEncrypt, KeyInit};
 use refmodels::sm4 as r;
 
-uf1!(uf_t, u32, u32, [B0 B1], r::t);
-uf1!(uf_tp, u32, u32, [B0 B1], r::t_prime);
+cuf1!(uf_t, vuf_sm4c_uf_t, u32, u32, r::t);
+cuf1!(uf_tp, vuf_sm4c_uf_tp, u32, u32, r::t_prime);
 pub fn stub_t(v: u32) -> u32 {
     uf_t::call(v)
 }
